@@ -309,6 +309,40 @@ def cut_stream(res, rng, tier):
             res.violations.append(dict(sig=dict(helper="pretty_cut", what="raised"), case=case, observed=repr(e)[:200], expected="bins", what="pretty_cut raised"))
 
 
+def noskip_stream(res, rng, tier):
+    """skipna=False: nulls are not skipped - nansum / nanmax / nanmin / nanmean must return what NumPy's PLAIN sum / max / min /
+    mean return (NaN as soon as a NaN is present), for every number of worker threads (also more threads than elements)."""
+    import warnings
+    from groupby_lib import nanops
+    vals_f = [float("nan"), 1.0, 2.0, -3.0, 0.5, 4.0, 7.0]
+    for t in range(600 if tier == "quick" else 6000):
+        L = rng.randint(1, 10)
+        dt = rng.choice(["f8", "f8", "f4", "i8", "i4"])
+        if dt.startswith("f"):
+            vals = [rng.choice(vals_f if rng.random() < 0.5 else vals_f[1:]) for _ in range(L)]
+        else:
+            vals = [rng.choice([1, 2, -3, 0, 4, 7, 100]) for _ in range(L)]
+        arr = np.array(vals, dtype=dt)
+        fn = rng.choice(["nansum", "nanmax", "nanmin", "nanmean"])
+        nt = rng.choice([1, 1, 2, 3, 4, 5, 8])
+        want = {"nansum": np.sum, "nanmax": np.max, "nanmin": np.min, "nanmean": np.mean}[fn](arr.astype("float64") if dt.startswith("f") else arr)
+        case = dict(helper="nanops", stream="noskip", func=fn, dtype=dt, values=[str(v) for v in vals], n_threads=nt)
+        res.note_case(repr(case), any(v != v for v in vals) or nt > 1)
+        res.count("stream", "noskip"); res.count("noskip_func", fn); res.count("n_threads", nt)
+        with warnings.catch_warnings():
+            warnings.simplefilter("ignore")
+            try:
+                got = float(getattr(nanops, fn)(arr, skipna=False, n_threads=nt))
+            except Exception as e:  # noqa: BLE001
+                res.violations.append(dict(sig=dict(helper="nanops", stream="noskip", what="raised", func=fn), case=case, observed=repr(e)[:200], expected=str(want), what="nanops raised with skipna=False"))
+                continue
+        want = float(want)
+        ok = (got != got and want != want) or (got == got and want == want and abs(got - want) <= 1e-6 * max(1.0, abs(want)))
+        if not ok:
+            res.violations.append(dict(sig=dict(helper="nanops", stream="noskip", what="value", func=fn, dtype=dt), case=case, observed=str(got), expected=str(want),
+                                       what=f"nanops.{fn}(skipna=False) differs from NumPy's plain reduction (a null that is not skipped must make the result null, for every thread count)"))
+
+
 def float_model_stream(res, rng, tier):
     """Tie A in IEEE-754 for nansum / nanmean / nanvar: the real functions against Model/NanopsFloat.v, a bit-exact
     transcription in Coq's primitive floats (array_split pieces, piece sums from 0.0 skipping NaN, merge from 0.0, mean,
@@ -371,7 +405,7 @@ def float_model_stream(res, rng, tier):
 
 def run(res, tier="quick", seed=0, widen=False):
     rng = random.Random(seed * 31 + 20 + (1 if widen else 0))
-    res.rule = ("nanops: seeded 1-D arrays of length 1..12 (float64/float32 with NaN at any place, int64, the narrow integer dtypes over their full range, values with offsets up to 1e15 / epoch nanoseconds) x 7 functions x n_threads 1..8 vs NumPy and (sum/min/max) vs the extracted "
+    res.rule = ("nanops with skipna=False vs NumPy's PLAIN sum / max / min / mean for 1-8 threads (a null not skipped makes the result null); nanops: seeded 1-D arrays of length 1..12 (float64/float32 with NaN at any place, int64, the narrow integer dtypes over their full range, values with offsets up to 1e15 / epoch nanoseconds) x 7 functions x n_threads 1..8 vs NumPy and (sum/min/max) vs the extracted "
                 "model of the chunked reduction; 2-D sum/min/max on both axes; nb_dot on small integer/float matrices as array / pandas / polars frame vs a @ b; "
                 "bools_to_categorical on every boolean frame up to 3x3 (4x4 sampled in thorough); pretty_cut on seeded value/edge grids incl. values equal to edges, "
                 "outside all edges, nulls, unsorted edges; non-trivial = has a null or several threads (nanops), every case otherwise; distinct = canonical case")
@@ -379,6 +413,7 @@ def run(res, tier="quick", seed=0, widen=False):
     DRV = Driver()
     nanops_stream(res, rng, tier)
     float_model_stream(res, random.Random(seed * 31 + 2020 + (1 if widen else 0)), tier)
+    noskip_stream(res, random.Random(seed * 31 + 2021 + (1 if widen else 0)), tier)
     dot_stream(res, rng, tier)
     bools_stream(res, rng, tier)
     cut_stream(res, rng, tier)
